@@ -11,7 +11,7 @@ exec(open(os.path.join(HERE, "tools", "claims.py")).read())
 import ast, glob
 for f in sorted(glob.glob(os.path.join(HERE, "harness", "props", "c[0-9][0-9].py"))):
     pid = os.path.basename(f)[:-3].upper()
-    if pid in NOT_CLAIMED:
+    if pid in NOT_CLAIMED or pid not in INTEGRATED:
         continue
     try:
         tree = ast.parse(open(f).read())
